@@ -281,9 +281,40 @@ func (c *Ctx) verify() {
 		c.paramAssumptions(s, p.Name(), v, c.fc)
 		c.addModelVars(p.Name(), v)
 	}
+	// captured variables of a function literal: each is a pointer to the variable's cell. Contracts name the VARIABLE
+	// (its current value); several captures called "_" (unnamed results of the enclosing function) are _0, _1, ...
+	blanks := 0
+	var fvRefs []string
 	for _, fv := range fn.FreeVars {
 		v := c.freshVal(s, fv.Name(), fv.Type())
 		fr.regs[fv] = v
+		name := fv.Name()
+		if name == "_" {
+			name = fmt.Sprintf("_%d", blanks)
+			blanks++
+		}
+		c.paramAssumptions(s, name, v, c.fc)
+		if sc, ok := v.(Scalar); ok && sc.S == SRef {
+			for _, o := range fvRefs {
+				c.assume(s, fmt.Sprintf("(not (= %s %s))", sc.T, o)) // distinct variables have distinct cells
+			}
+			fvRefs = append(fvRefs, sc.T)
+			if _, isPtr := fv.Type().Underlying().(*types.Pointer); isPtr && !strings.Contains(name, "$") {
+				sa := SrcAddr{P: v, Ty: fv.Type()}
+				fr.src[name] = sa
+				env.vars[name] = sa
+			}
+		}
+		// range-over-func protocol: the loop body is only entered while its state variable says "ready"
+		if fn.Synthetic == "range-over-func yield" && strings.HasPrefix(fv.Name(), "jump$") {
+			c.assumptions["range-over-func: iterators call the loop body only in the ready state (jump == 0)"] = true
+			cur := c.loadAt(s, nil, v, fv.Type().Underlying().(*types.Pointer).Elem()).(Scalar)
+			c.assume(s, fmt.Sprintf("(= %s %s)", cur.T, c.ar.idx(0)))
+			// the state variable itself is protocol state of the lowering, not of the program: always writable
+			if sc, ok := v.(Scalar); ok {
+				c.extraMods = append(c.extraMods, modEntry{heap: fieldHeapName("cell", "int", ""), sort: fmt.Sprintf("(Array Ref %s)", c.ar.idxSort()), kind: modSingle, ref: sc.T})
+			}
+		}
 	}
 	c.entryEnvVars = env.vars
 	env.old = map[string]string{}
@@ -778,7 +809,7 @@ func (c *Ctx) atReturn(s *State, fr *Frame, res Val) {
 		menv := c.newSpecEnv(s, fr)
 		menv.vars = c.entryEnvVars
 		menv.heap = map[string]string{}
-		c.checkFrame(s, map[string]string{}, c.evalMods(menv, c.fc.Modifies), "alloc0", "frame", "", pos)
+		c.checkFrame(s, map[string]string{}, append(c.evalMods(menv, c.fc.Modifies), c.extraMods...), "alloc0", "frame", "", pos)
 	}
 	c.reach(s, "reach", "return", "some return reachable")
 }
